@@ -127,11 +127,12 @@ def exRowwise : TableVal :=
     ⟨"ok".toList, "onoff".toList, [.bool true, .bool false]⟩,
     ⟨"born".toList, "datetime".toList, [.dt "2020-01-02T03:04:05".toList, .dt "NaT".toList]⟩]⟩
 
-/-- tab and line feed inside text, and the first representable timestamps -/
+/-- tab and line feed inside text, astral characters, the first and the last representable timestamps -/
 def exControl : TableVal :=
   ⟨"t\nb".toList, ["all".toList], false,
-   [⟨"a\tb".toList, "text".toList, [.text "a\nb".toList, .text " lead\n".toList]⟩,
-    ⟨"d".toList, "datetime".toList, [.dt "1900-01-01T00:00:00".toList, .dt "1900-02-28T23:59:59".toList]⟩]⟩
+   [⟨"a\tb😀".toList, "text".toList, [.text "a\nb".toList, .text " lead\n".toList, .text "𝔸𠀀".toList]⟩,
+    ⟨"d".toList, "datetime".toList, [.dt "1900-01-01T00:00:00".toList, .dt "1900-02-28T23:59:59".toList,
+      .dt "9999-12-31T23:59:59".toList]⟩]⟩
 
 def exTransposed : TableVal := { exRowwise with name := "t".toList, transposed := true }
 def exNoColumns : TableVal := ⟨"z".toList, ["all".toList], false, []⟩
@@ -145,7 +146,7 @@ example : excelWF exRowwise = true ∧ excelWF exTransposed = true ∧ excelWF e
 example :
     sheetNamesOK ["Sheet1".toList, "in put".toList, "résumé".toList, "Sheet".toList] = true ∧
     sheetNamesOK ["a/b".toList] = false ∧ sheetNamesOK ["A".toList, "a".toList] = false ∧
-    sheetNamesOK [[]] = false ∧ sheetNamesOK [List.replicate 32 'x'] = false := by decide
+    sheetNamesOK [[]] = false ∧ sheetNamesOK [List.replicate 32 'x'] = false ∧ sheetNamesOK [] = false := by decide
 
 /-- no clause is idle: one violated clause each -/
 example :
